@@ -54,12 +54,78 @@ def _is_error_return(a):
     return isinstance(rc, ast.Constant) and isinstance(rc.value, int) and rc.value != 0
 
 
+# ---- bounded arithmetic check of computed stack indexes -------------------------------------------
+# The guards that dominate an index site are evaluated over a small integer domain (the count argument
+# and the length of the indexed list); every assignment consistent with them must give an index inside
+# 0 .. len-1.  Python wraps negative indexes silently, so an `except IndexError` is not a range check.
+_NUMS = range(-2, 9)
+_LENS = range(0, 7)
+
+
+def _ev(e, env, defs, lst, depth=0):
+    """Three-valued evaluation (int / bool / None=unknown) of an index or guard expression."""
+    if depth > 6 or e is None:
+        return None
+    if isinstance(e, ast.Constant):
+        return e.value if isinstance(e.value, (int, bool)) else None
+    if isinstance(e, ast.Name):
+        if e.id in env:
+            return env[e.id]
+        if e.id == lst:
+            return env["__len__"] > 0  # truthiness of the list
+        ds = [d for d in defs.get(e.id, []) if d.kind == "assign"]
+        if len(ds) == 1:
+            return _ev(ds[0].value, env, defs, lst, depth + 1)
+        return None
+    if isinstance(e, ast.Call) and call_name(e) == "len" and len(e.args) == 1:
+        return env["__len__"] if unparse(e.args[0]) == lst else None
+    if isinstance(e, ast.Call) and call_name(e) == "int":
+        return None
+    if isinstance(e, ast.UnaryOp):
+        v = _ev(e.operand, env, defs, lst, depth + 1)
+        if v is None:
+            return None
+        if isinstance(e.op, ast.Not):
+            return not v
+        if isinstance(e.op, ast.USub):
+            return -v
+        return None
+    if isinstance(e, ast.BinOp) and isinstance(e.op, (ast.Add, ast.Sub)):
+        l, r = _ev(e.left, env, defs, lst, depth + 1), _ev(e.right, env, defs, lst, depth + 1)
+        if l is None or r is None or isinstance(l, bool) or isinstance(r, bool):
+            return None
+        return l + r if isinstance(e.op, ast.Add) else l - r
+    if isinstance(e, ast.Compare) and len(e.ops) == 1:
+        l, r = _ev(e.left, env, defs, lst, depth + 1), _ev(e.comparators[0], env, defs, lst, depth + 1)
+        if l is None or r is None:
+            return None
+        op = e.ops[0]
+        return {ast.Lt: l < r, ast.LtE: l <= r, ast.Gt: l > r, ast.GtE: l >= r, ast.Eq: l == r, ast.NotEq: l != r}.get(type(op))
+    if isinstance(e, ast.BoolOp):
+        vs = [_ev(v, env, defs, lst, depth + 1) for v in e.values]
+        if isinstance(e.op, ast.And):
+            return False if any(v is False for v in vs) else (None if any(v is None for v in vs) else True)
+        return True if any(v is True for v in vs) else (None if any(v is None for v in vs) else False)
+    return None
+
+
+def _index_sites(fn):
+    """(list name, index expr, node) for every computed index / pop on a directory-stack list."""
+    lists = {"DIRSTACK", "o", "dirstack"}
+    for n in walk_local(fn):
+        if isinstance(n, ast.Call) and isinstance(n.func, ast.Attribute) and n.func.attr == "pop" and isinstance(n.func.value, ast.Name) and n.func.value.id in lists and n.args and not isinstance(n.args[0], ast.Constant):
+            yield n.func.value.id, n.args[0], n
+        elif isinstance(n, ast.Subscript) and isinstance(n.value, ast.Name) and n.value.id in lists and not isinstance(n.slice, (ast.Slice, ast.Constant)):
+            yield n.value.id, n.slice, n
+
+
 def check(ctx):
     ctx.not_decided += ["the +N/-N index arithmetic and rotation order (values)", "symlink resolution of $PWD", "Windows UNC temp-drive mapping"]
     ctx.rule("R1", "os.chdir is called only by _change_working_directory and by context managers that restore the saved directory on every exit; $PWD/$OLDPWD are written only by _change_working_directory (after a successful chdir) and the resynchroniser", floor=9)
     ctx.rule("R2", "in cd/pushd/popd/dirs no error return is reachable after the stack was mutated or the directory changed", floor=4)
     ctx.rule("R3", "a directory change that can fail silently is not issued after the stack was mutated unless the target was validated or the result is checked", floor=2)
     ctx.rule("R4", "every pushd insertion reaches the $DIRSTACK_SIZE truncation before a normal return", floor=1)
+    ctx.rule("R5", "every computed index into the directory stack is inside 0..len-1 for all counts admitted by the guards that dominate it (a negative index wraps silently: `except IndexError` is not a range check)", floor=4)
 
     # ------------------------------------------------------------------ R1
     n_chdir = 0
@@ -190,6 +256,72 @@ def check(ctx):
                         unval.append(short(d.stmt, 50))
             ok = checked or val_here or not unval
             ctx.ob("R3", st, f"`{short(c)}` (can fail silently: its OSError handler prints and returns nothing) follows a stack mutation only with a validated target or a checked result", ok, key=f"{q}|silent-failure-after-mutation", where=loc(c), detail=f"unvalidated sources of the target: {unval}" if unval else None)
+        # R5 computed indexes
+        from .c14 import _expr_facts
+
+        for lst, idx_expr, node in _index_sites(fn):
+            stn = cfg.nodes_of(stmt_of(node))
+            facts = list(_expr_facts(node))
+            if stn:
+                facts += facts_at(cfg, stn[0])
+            # resolve local names the index is computed from; a name with several definitions gives
+            # one case per definition (facts at the definition hold at the use if it dominates... each
+            # definition is taken with the guards under which it executes)
+            func_names = {id(c.func) for c in ast.walk(fn) if isinstance(c, ast.Call)}
+
+            def cases_of(e_, depth=0):
+                """[(expr with locals substituted, extra facts)]"""
+                from ..engine import dtable as _dt
+
+                out = [(e_, [])]
+                if depth > 3:
+                    return out
+                for x in ast.walk(e_):
+                    if isinstance(x, ast.Name) and id(x) not in func_names and x.id != lst:
+                        ds_ = [d for d in defs.get(x.id, []) if d.kind == "assign" and not (isinstance(d.value, ast.Call) and call_name(d.value) == "int")]
+                        if ds_ and all(d.kind == "assign" for d in defs.get(x.id, [])) and len(ds_) == len(defs.get(x.id, [])):
+                            res = []
+                            for d_ in ds_:
+                                dn = cfg.nodes_of(d_.stmt)
+                                f_ = facts_at(cfg, dn[0]) if dn else []
+                                sub = _dt.subst(e_, {x.id: d_.value})
+                                for e2, f2 in cases_of(sub, depth + 1):
+                                    res.append((e2, f_ + f2))
+                            return res
+                return out
+
+            all_cases = cases_of(idx_expr)
+            names = set()
+            for e2, _f in all_cases:
+                for x in ast.walk(e2):
+                    if isinstance(x, ast.Name) and x.id != lst and not (isinstance(parent(x), ast.Call) and parent(x).func is x) and x.id != "len":
+                        names.add(x.id)
+            if len(names) != 1:
+                ctx.note(f"{st}: index `{unparse(idx_expr)}` depends on {sorted(names)}: not a single count, skipped")
+                continue
+            var = next(iter(names))
+            bad = None
+            n_ok = 0
+            for case_expr, case_facts in all_cases:
+              fs = facts + case_facts
+              for L in _LENS:
+                for k in _NUMS:
+                    env = {var: k, "__len__": L}
+                    if any(_ev(e, env, {}, lst) is (not pol) for e, pol in fs if _ev(e, env, {}, lst) is not None):
+                        continue  # excluded by a guard
+                    v = _ev(case_expr, env, {}, lst)
+                    if v is None or isinstance(v, bool):
+                        bad = bad or ("?", k, L)
+                        continue
+                    if not (0 <= v <= L - 1):
+                        bad = bad or (v, k, L)
+                    else:
+                        n_ok += 1
+            unknown = bad is not None and bad[0] == "?"
+            if unknown:
+                ctx.note(f"{st}: index `{unparse(idx_expr)}` could not be evaluated; skipped")
+                continue
+            ctx.ob("R5", st, f"`{short(node, 50)}`: index `{unparse(idx_expr)}` into {lst} stays within 0..len-1 under its guards", bad is None, key=f"{q}|index-out-of-range|{unparse(idx_expr)}", where=loc(node), detail=(f"{var}={bad[1]}, len({lst})={bad[2]} passes every guard but gives index {bad[0]}" + (" (negative: wraps around silently)" if bad[0] < 0 else "")) if bad else f"{n_ok} admitted (count, length) pairs checked")
         # R4
         if q == "pushd_fn":
             ins = [n for n in cfg.nodes if n.kind == "stmt" and any(isinstance(c.func, ast.Attribute) and is_name(c.func.value, "DIRSTACK") and c.func.attr in ("insert", "append") for c in calls_in(n.ast))]
@@ -218,7 +350,9 @@ META = {
     "resynchroniser; in cd/pushd/popd/dirs no error return is reachable after a stack mutation or a move; a silently "
     "failing directory change issued after the stack was already mutated with an unvalidated target is reported "
     "(known finding: popd/pushd onto a removed directory); every pushd insertion reaches the $DIRSTACK_SIZE cut. "
-    "The +N/-N arithmetic is not decided.",
+    "The +N/-N arithmetic is decided in one respect: every computed index into the stack lies in 0..len-1 for all "
+    "(count, length) pairs admitted by the guards that dominate it (bounded enumeration of the comparison "
+    "outcomes; a negative index would wrap silently). Which entry +N/-N *means* is not decided.",
     "note": "Decides the listed structural clauses, not the behaviour. Error returns are recognised by the alias "
     "convention `return out, err, <non-zero>`.",
 }
